@@ -36,6 +36,14 @@ OPS = [
     (r"wrapping_sub", "wrapping_add"), (r"wrapping_add", "wrapping_sub"),
     (r"\.rev\(\)", ""), (r"0\.\.=", "0.."), (r"\.\.=", ".."),
 ]
+# the wrong one of two similar names (one occurrence at a time)
+PAIRS = [("l", "r"), ("vl", "vr"), ("a", "b"), ("i", "j"), ("x", "y"), ("u", "v"), ("left", "right"), ("begin", "end"), ("self", "rhs"), ("lhs", "rhs"),
+         ("a1", "a2"), ("m1", "m2"), ("x0", "y0"), ("n", "m"), ("res", "a"), ("item", "next"), ("pos", "sz"), ("p", "sz"), ("dims", "idx"), ("d", "r"), ("ort", "par")]
+for _a, _b in PAIRS:
+    OPS.append((r"(?<![\w.])%s\b(?!\s*[:(!])" % _a, _b))
+    OPS.append((r"(?<![\w.])%s\b(?!\s*[:(!])" % _b, _a))
+    OPS.append((r"(?<=\.)%s\b(?!\s*\()" % _a, _b))
+    OPS.append((r"(?<=\.)%s\b(?!\s*\()" % _b, _a))
 
 
 def crate_of(path):
